@@ -27,6 +27,11 @@ impl CommandCompiler {
         }
     }
 
+    /// The complete typed arena of one analysis, for rendering typed observations.
+    pub fn statics(&self, analysis: &ProgramAnalysis) -> Option<Arc<StaticsArena>> {
+        self.session.materialize_arena(analysis).ok()
+    }
+
     pub fn checked_program(
         &self, analysis: &ProgramAnalysis,
     ) -> Option<zydeco_session::CheckedProgram> {
